@@ -603,7 +603,7 @@ def obligations(tier):
     from . import c06
 
     obs.append(Obligation("C16/X8/alias_below_outer_join", "X8", "alias() on an operand of an outer join leaves the data unchanged: computed columns below the alias are still NULL on the rows the join adds (native, Python oracle)",
-                          c06.n5_run, functions=[fi(verbs_mod.alias), fi(TS.Cache.requires_subquery)], bounded="the C06/N5 join matrix (operand variants with alias() and a nested join below the alias)"))
+                          c06.n5_core_run, functions=[fi(verbs_mod.alias), fi(TS.Cache.requires_subquery)], bounded="the C06/N5 join matrix (operand variants with alias() and a nested join below the alias)"))
     seed = int(os.environ.get("VERIF_SEED", "0") or 0)
     for be in ("polars", "sqlite"):
         for chunk in range(4 if tier == "quick" else 16):
